@@ -1161,6 +1161,8 @@ class Interp(CallMixin):
                 return StrT((Opaque(f"{cont!r}[{lo}:{hi}]"),))  # some part of a text that is not known literally
             self.unsupported(e, frame, "slice")
         idx = self.eval(e.slice, frame)
+        if cont is None:
+            self.raise_("TypeError", "'NoneType' object is not subscriptable")
         if getattr(e, "_vstat_unpack", False) and not isinstance(cont, (list, tuple, str)):
             cont = self.iterate(cont, e, frame)  # unpacking takes the items of any iterable (a generator expression ...)
         if isinstance(cont, Obj) and cont.cls == "builtins.module_globals":
